@@ -138,6 +138,24 @@ func Main(all []*Scenario) {
 		os.Exit(driver(all, &a))
 	case "dettest":
 		os.Exit(dettest(all, &a))
+	case "showrun":
+		// prints the event log of run number a.Index (debugging aid)
+		scns := scenariosFor(all, &a)
+		wheel := schedule(scns)
+		for k := a.MaxRuns; k > 0 && k <= a.Index; k++ { // optionally run k = MaxRuns..Index-1 first, in the same process
+			if k < a.Index {
+				sd := mixSeed(a.Seed, k)
+				RunOne(wheel[k%len(wheel)], a.Tier, sd, NewChoices(sd), false)
+			}
+		}
+		scn := wheel[a.Index%len(wheel)]
+		seed := mixSeed(a.Seed, a.Index)
+		res := RunOne(scn, a.Tier, seed, NewChoices(seed), true)
+		for _, l := range res.Log {
+			fmt.Println(l)
+		}
+		fmt.Printf("== %s loghash=%x sched=%x trace=%d violation=%v harness=%q\n", scn.Name, res.LogHash, res.SigSched, len(res.Trace), res.Violation, res.Harness)
+		os.Exit(0)
 	case "list":
 		for _, s := range all {
 			fmt.Printf("%s %s bubble=%v\n", s.Property, s.Name, s.Bubble)
